@@ -10,6 +10,10 @@ R09.4  interface: five methods per factory class, can_launch returns a pair on
        every path, find_launcher asks the launchers in the configured order and
        stops at the first that accepts, _prepare_launch_methods keeps order and
        launcher table consistent
+R09.5  node collections derived from the slots (node counts, node lists) name
+       every node once whatever the order of the slots
+R09.6  a launcher which names no node accepts a task only after an exact
+       comparison of the slot's node name with the local node name(s)
 """
 
 import ast
@@ -1644,7 +1648,11 @@ def run(prog, rep, tier):
         'whose command does not count ranks refuse multi-rank tasks; every '
         'factory class implements the five methods, can_launch answers with a '
         'pair, find_launcher asks in the configured order and returns the '
-        'first accepting launcher, failed launchers leave the order.')
+        'first accepting launcher, failed launchers leave the order; node '
+        'collections a launcher reduces the slots to (set, dict keys, '
+        'groupby) and what feeds --nodes / --nodelist style options are '
+        'distinct by construction for any slot order; Fork-like launchers '
+        'accept only after an exact node name comparison.')
     rep.undecided = ('option semantics of each MPI flavour (whether -host, '
         '-rf, --nodelist, ERF syntax do what the placement says), may-depend '
         'only: a launcher which names the nodes on one of its branches passes '
